@@ -401,9 +401,11 @@ func specEncLen(s structEncoder, n int) int {
 //@   loop 6: invariant 0 <= offset && offset <= int64(len(bytes))
 //@   loop 7: invariant 0 <= i && sliceLen == len(valArray)
 
-// parseFieldParameters reads a struct tag (strings.Split, strconv): assumed to return some parameter set.
+// parseFieldParameters reads a struct tag: checked against its body for every tag string (each slice
+// part[k:] lies behind a HasPrefix test of a k-byte prefix; strings.Split, strings.HasPrefix and
+// strconv.ParseInt are assumed contracts on the standard library).
 //@ func parseFieldParameters [C16]
-//@   trusted
+//@   loop 0: invariant 0 <= ITER
 
 // specHolds: the reflect.Value holds a T (what reflect guarantees when v.Type() is T's type descriptor;
 // stated as an environment assumption at the three type assertions of makeField)
